@@ -31,6 +31,7 @@ import (
 	"google.golang.org/grpc/status"
 	"google.golang.org/protobuf/protoadapt"
 
+	"google.golang.org/grpc/internal/transport"
 	"google.golang.org/grpc/internal/zzverif/core"
 	"google.golang.org/grpc/internal/zzverif/simnet"
 	"google.golang.org/grpc/internal/zzverif/tap"
@@ -149,6 +150,10 @@ type ClientCfg struct {
 	KATimeNs      int64  `json:"ka_time_ns,omitempty"`
 	KATimeoutNs   int64  `json:"ka_timeout_ns,omitempty"`
 	KAPermit      bool   `json:"ka_permit,omitempty"`
+	// MaxStreamID > 0 lowers transport.MaxStreamID for the run (the stream id
+	// at which a client transport stops taking new streams and retires itself
+	// gracefully while its streams finish; normally about 1.6e9).
+	MaxStreamID uint32 `json:"max_stream_id,omitempty"`
 }
 
 // Action is a world-level event at a simulated time.
@@ -365,6 +370,11 @@ func Run(e *core.Env, sc *Scenario) {
 	if !w.initExts() {
 		w.net.Shutdown()
 		return
+	}
+	if sc.Client.MaxStreamID > 0 {
+		saved := transport.MaxStreamID
+		transport.MaxStreamID = sc.Client.MaxStreamID
+		defer func() { transport.MaxStreamID = saved }()
 	}
 
 	// server
